@@ -14,6 +14,8 @@ from hypothesis import strategies as st
 import pymbolic
 from pymbolic.mapper.evaluator import CachedEvaluationMapper, EvaluationMapper
 
+import numpy as np
+
 import pymbolic.primitives as p
 
 from pbt import envs, strategies as S, walk
@@ -103,6 +105,28 @@ def check_eval(spec):
     except RefSkip as s:
         return res.skip(f"refskip:{s}")
     _classify(res, e, ref)
+    if isinstance(e, (list, np.ndarray)) and len(e) and ref[0] == "val":
+        # one memoizing evaluator, the same (unhashable, mutable) container twice: once as
+        # it is, once after an entry was exchanged in place - the second answer is about
+        # the second content
+        env2 = envs.build_env(spec["env"], envs.CallCounter())
+        m = CachedEvaluationMapper(env2)
+        try:
+            m(e)
+            flat = e if isinstance(e, list) else e.reshape(-1)
+            old = flat[0]
+            flat[0] = p.Sum((old, 1000)) if isinstance(old, p.Expression) or isinstance(
+                old, (int, float)) and not isinstance(old, bool) else old
+            want2 = ref_eval(e, envs.build_env(spec["env"], envs.CallCounter()))
+            bad = compare_with_ref(want2, lambda: m(e))
+            res.compared()
+            if bad is not None and want2[0] == "val":
+                res.fail("container-edited-in-place:" + bad[0],
+                         f"CachedEvaluationMapper instance re-used on {e!r}: {bad[1]}")
+            flat[0] = old
+            res.label("container-reevaluated-after-edit")
+        except RefSkip:
+            pass
     specs_txt = repr(spec["expr"])
     if ref[0] == "val" and (any(repr(["Var", u]) in specs_txt for u in S.UNBOUND_NAMES)
                             or "'cnt'" in specs_txt
@@ -177,6 +201,14 @@ CHECKS = {"eval": check_eval, "box": check_box}
 def _container_case(draw):
     kind = draw(st.sampled_from(("Tuple", "List", "NpArray")))
     items = [draw(S.expr("NUM", 2, FRAG)) for _ in range(draw(st.integers(0, 3)))]
+    if draw(st.integers(0, 2)) == 0:
+        # entries that are sequences themselves (of equal length): a 1-D array of tuples
+        # stays a 1-D array of tuples
+        n = draw(st.integers(1, 3))
+        items = [draw(st.sampled_from((
+            ["Tuple", [draw(S.expr("NUM", 1, FRAG)), ["Const", "int", i]]],
+            ["List", [["Var", "x"], ["Const", "int", i]]],
+            ["Tuple", [["Var", "y"], ["Var", "x"]]]))) for i in range(n)]
     return [kind, items]
 
 
